@@ -27,8 +27,12 @@
    segment.  Every connection carries the program counter of the goroutine that sets it up
    (the dialling Send inside connect(), or the Listen callback) and of its handleConn
    goroutine, so "one set-up thread and at most one handler per connection" is structural.
-   [fx] is the planned repair of F11: a connection whose set-up fails after it was opened
-   (identity not sent, registration or launch refused) is closed by the set-up thread.
+   [fx : fixes] selects the repairs: f11 - a connection whose set-up fails after it was
+   opened (identity not sent, registration or launch refused) is closed by the set-up
+   thread; f43 - the Listen callback begins with beginNegotiation (under the lock: refused
+   and closed if isClosed, else wg.Add(1) and the connection is put into
+   Router.negotiating) and ends with endNegotiation (removed, wg.Done()); Stop, in its
+   locked section, also closes every connection under negotiation.
 
    The table keeps the registration order; r.connection(e) returns the first registered
    connection of e and removeConnection swaps the last one of e into the freed slot, as
@@ -41,10 +45,17 @@ Import ListNotations.
 
 Inductive res := Ok | Err.
 
+(* the repairs of the pinned code that the model carries as switches:
+   f11  a connection whose set-up fails after it was opened is closed by the set-up thread
+   f43  accepted connections are tracked from the start of the Listen callback until it
+        returns (Router.negotiating + a wait-group slot); Stop closes them and waits *)
+Record fixes := mkFx { f11 : bool; f43 : bool }.
+
 (* set-up of one connection *)
 Inductive spc :=
 | OSendId | ORegister | OLaunch            (* Router.connect, after host.Connect returned c *)
-| IRecvId | ICheck | IRegister | ILaunch   (* callback given to host.Listen, called with c *)
+| IAccept                                  (* callback given to host.Listen called with c (router.accepted) *)
+| IRecvId | ICheck | IRegister | ILaunch   (* ... inside receiveServerIdentity, isPeerValid, register, launch *)
 | SetupOk                                  (* registered, handler launched *)
 | SetupErr.                                (* set-up thread returned an error / gave up *)
 
@@ -62,7 +73,8 @@ Record conn := mkConn {
   popen : bool;        (* the peer's endpoint is open *)
   peer : nat;
   setup : spc;
-  hd : hpc }.
+  hd : hpc;
+  neg : bool }.        (* in Router.negotiating: its callback holds a wait-group slot (repair f43) *)
 
 (* Router.Send *)
 Inductive npc :=
@@ -105,6 +117,8 @@ Inductive action :=
 | ASendOk (t : nat) | ASendFail (t : nat)
 (* set-up of connection c *)
 | ASendIdOk (c : nat) | ASendIdFail (c : nat)
+| ABegin (c : nat)                 (* beginNegotiation: the first critical section of the Listen callback *)
+| AEnd (c : nat)                   (* endNegotiation: the callback returns *)
 | ARecvIdOk (c : nat) | ARecvIdFail (c : nat) | ACheckPeer (c : nat) (valid : bool)
 | ARegister (c : nat) | ALaunch (c : nat)
 (* handleConn of connection c *)
@@ -153,15 +167,16 @@ Definition remove_swap (peer_of : nat -> option nat) (tbl : list nat) (c : nat) 
     end
   else tbl.
 
-Definition close_conn (k : conn) : conn := mkConn false (popen k) (peer k) (setup k) (hd k).
-Definition set_setup (k : conn) (x : spc) : conn := mkConn (lopen k) (popen k) (peer k) x (hd k).
-Definition set_hd (k : conn) (h : hpc) : conn := mkConn (lopen k) (popen k) (peer k) (setup k) h.
+Definition close_conn (k : conn) : conn := mkConn false (popen k) (peer k) (setup k) (hd k) (neg k).
+Definition set_setup (k : conn) (x : spc) : conn := mkConn (lopen k) (popen k) (peer k) x (hd k) (neg k).
+Definition set_hd (k : conn) (h : hpc) : conn := mkConn (lopen k) (popen k) (peer k) (setup k) h (neg k).
+Definition set_neg (k : conn) (b : bool) : conn := mkConn (lopen k) (popen k) (peer k) (setup k) (hd k) b.
 
-(* Stop's loop over the table: close every registered connection *)
+(* Stop's loops: close every registered connection and every connection under negotiation *)
 Fixpoint close_listed (tbl : list nat) (i : nat) (cs : list conn) : list conn :=
   match cs with
   | [] => []
-  | k :: r => (if mem i tbl then close_conn k else k) :: close_listed tbl (S i) r
+  | k :: r => (if mem i tbl || neg k then close_conn k else k) :: close_listed tbl (S i) r
   end.
 
 (* r.connection(e): the first registered connection of peer p *)
@@ -173,6 +188,8 @@ Fixpoint lookup (cs : list conn) (tbl : list nat) (p : nat) : option nat :=
               | None => lookup cs r p
               end
   end.
+
+Definition setup_done (x : spc) : bool := match x with SetupOk | SetupErr => true | _ => false end.
 
 Definition live (h : hpc) : bool :=          (* handleConn running, wg.Done() not yet executed *)
   match h with HRecv | HGot _ | HDisp _ | HExitClose | HExitDone => true | _ => false end.
@@ -198,27 +215,27 @@ Definition set_abandoned (s : state) (l : list nat) : state :=
 
 (* a set-up thread gives up on the open connection c: with the repair it closes c,
    the pinned code just drops the handle *)
-Definition give_up (fx : bool) (s : state) (c : nat) (k : conn) : state :=
-  if fx then set_conns s (upd (conns s) c (set_setup (close_conn k) SetupErr))
+Definition give_up (fx : fixes) (s : state) (c : nat) (k : conn) : state :=
+  if f11 fx then set_conns s (upd (conns s) c (set_setup (close_conn k) SetupErr))
   else set_abandoned (set_conns s (upd (conns s) c (set_setup k SetupErr)))
                      (if lopen k then c :: abandoned s else abandoned s).
 
 (* ---- the transition function ---------------------------------------------- *)
 
-Definition step (fx : bool) (s : state) (a : action) : option state :=
+Definition step (fx : fixes) (s : state) (a : action) : option state :=
   match a with
   | ACallStop => Some (set_stops s (stops s ++ [SHost]))
   | ACallSend p => Some (set_senders s (senders s ++ [NLookup p]))
   | AIncoming p =>
-      if listening s then Some (set_conns s (conns s ++ [mkConn true true p IRecvId HNone])) else None
+      if listening s then Some (set_conns s (conns s ++ [mkConn true true p IAccept HNone false])) else None
   | APeerClose c =>
       match nth_error (conns s) c with
-      | Some k => Some (set_conns s (upd (conns s) c (mkConn (lopen k) false (peer k) (setup k) (hd k))))
+      | Some k => Some (set_conns s (upd (conns s) c (mkConn (lopen k) false (peer k) (setup k) (hd k) (neg k))))
       | None => None
       end
   | APeerCloseBoth c =>
       match nth_error (conns s) c with
-      | Some k => Some (set_conns s (upd (conns s) c (mkConn false false (peer k) (setup k) (hd k))))
+      | Some k => Some (set_conns s (upd (conns s) c (mkConn false false (peer k) (setup k) (hd k) (neg k))))
       | None => None
       end
   (* ---- Stop *)
@@ -259,7 +276,7 @@ Definition step (fx : bool) (s : state) (a : action) : option state :=
   | ADialOk t =>
       match nth_error (senders s) t with
       | Some (NDial p retry) =>
-          Some (set_senders (set_conns s (conns s ++ [mkConn true true p OSendId HNone]))
+          Some (set_senders (set_conns s (conns s ++ [mkConn true true p OSendId HNone false]))
                             (upd (senders s) t (NConnect p (length (conns s)) retry)))
       | _ => None
       end
@@ -317,6 +334,32 @@ Definition step (fx : bool) (s : state) (a : action) : option state :=
                   | OSendId => if lopen k && popen k then None else Some (give_up fx s c k)
                   | _ => None
                   end
+      | None => None
+      end
+  | ABegin c =>
+      match nth_error (conns s) c with
+      | Some k =>
+          match setup k with
+          | IAccept =>
+              if f43 fx then
+                if closed s then Some (set_conns s (upd (conns s) c (set_setup (close_conn k) SetupErr)))
+                else Some (set_wg (set_conns s (upd (conns s) c (set_neg (set_setup k IRecvId) true))) (S (wg s)))
+              else Some (set_conns s (upd (conns s) c (set_setup k IRecvId)))
+          | _ => None
+          end
+      | None => None
+      end
+  | AEnd c =>
+      match nth_error (conns s) c with
+      | Some k =>
+          if neg k && setup_done (setup k) then
+            match wg s with
+            | 0 => Some (mkState (listening s) (closed s) (table s) 0 (upd (conns s) c (set_neg k false))
+                                 (senders s) (stops s) (stop_returned s) (dispatched s) (late s)
+                                 (abandoned s) true)           (* sync: negative WaitGroup counter *)
+            | S n => Some (set_wg (set_conns s (upd (conns s) c (set_neg k false))) n)
+            end
+          else None
       | None => None
       end
   | ARecvIdOk c =>
@@ -453,7 +496,7 @@ Definition step (fx : bool) (s : state) (a : action) : option state :=
       end
   end.
 
-Fixpoint run (fx : bool) (s : state) (acts : list action) : option state :=
+Fixpoint run (fx : fixes) (s : state) (acts : list action) : option state :=
   match acts with
   | [] => Some s
   | a :: r => match step fx s a with None => None | Some s' => run fx s' r end
@@ -463,13 +506,12 @@ Fixpoint run (fx : bool) (s : state) (acts : list action) : option state :=
 
 Definition sender_done (p : npc) : bool := match p with NDone _ => true | _ => false end.
 Definition stop_done (p : stpc) : bool := match p with SReturned => true | _ => false end.
-Definition setup_done (x : spc) : bool := match x with SetupOk | SetupErr => true | _ => false end.
 Definition handler_done (h : hpc) : bool := match h with HNone | HDead => true | _ => false end.
 
 (* every call has returned and every goroutine of the router has exited *)
 Definition quiescent (s : state) : bool :=
   forallb sender_done (senders s) && forallb stop_done (stops s) &&
-  forallb (fun k => setup_done (setup k) && handler_done (hd k)) (conns s).
+  forallb (fun k => setup_done (setup k) && handler_done (hd k) && negb (neg k)) (conns s).
 
 Definition open_conns (s : state) : list nat :=
   map fst (filter (fun ik => lopen (snd ik)) (combine (seq 0 (length (conns s))) (conns s))).
